@@ -110,7 +110,7 @@ fn main() {
                 let main = tape(160);
                 let sp = tape(120);
                 let mut mt = tape::Tape::new(&main);
-                let mut g = syn::gen::Gen { t: &mut mt, o: syn::gen::SynOpts { vars_heavy: i % 2 == 0, children: false, respell_pct: 5, special_chars_pct: 15 }, counter: 0, rules: vec![], features: vec![] };
+                let mut g = syn::gen::Gen { t: &mut mt, o: syn::gen::SynOpts { vars_heavy: i % 2 == 0, children: false, respell_pct: 5, special_chars_pct: 15 }, counter: 0, rules: vec![], rule_refs: vec![], features: vec![] };
                 let m = g.manifest();
                 let mut rt = tape::Tape::new(&sp);
                 let mut r = syn::ast::Renderer { t: &mut rt, variation: 1 + i % 3, features: vec![], line: 1 };
